@@ -38,3 +38,31 @@ pub fn exec_line(line: &str) -> String {
   let a = match ints(&parts[1..]) { Some(v) => v, None => return "bad-op".to_string() };
   guard(|| crate::dispatch_exec(op, &a))
 }
+
+/// run `f(y)` for every y in `years` on all cores and write the results in order.
+/// Each call is wrapped in catch_unwind by the caller's closure where needed.
+pub fn par_years<F>(years: &[i64], w: &mut dyn std::io::Write, f: F)
+where F: Fn(i64) -> String + Sync {
+  let n = std::thread::available_parallelism().map(|x| x.get()).unwrap_or(4).min(16);
+  let chunk = 64usize;
+  let mut pos = 0usize;
+  while pos < years.len() {
+    let end = (pos + chunk * n).min(years.len());
+    let slice = &years[pos..end];
+    let parts: Vec<String> = std::thread::scope(|s| {
+      let hs: Vec<_> = slice.chunks(chunk).map(|c| {
+        let fr = &f;
+        s.spawn(move || { let mut out = String::new(); for y in c { out.push_str(&fr(*y)); } out })
+      }).collect();
+      hs.into_iter().map(|h| h.join().unwrap_or_else(|_| "THREAD-PANIC\n".to_string())).collect()
+    });
+    for p in parts { w.write_all(p.as_bytes()).unwrap(); }
+    pos = end;
+  }
+}
+
+/// years visited by the sampled tiers: quick = ..=300, every 10th year, 1575..=1590 and the last 3; `all` = all
+pub fn year_selected(y: i64, args: &[String]) -> bool {
+  let all = args.get(0).map(|s| s == "all").unwrap_or(false);
+  all || y <= 300 || y % 10 == 0 || y >= 9997 || (1575..=1590).contains(&y)
+}
